@@ -2,6 +2,10 @@ import Lean.Data.Json
 import AnonModel.Model.Encode
 import AnonModel.Driver.OpsInterval
 import AnonModel.Driver.OpsIdent
+import AnonModel.Driver.OpsQuery
+import AnonModel.Driver.OpsStatusList
+import AnonModel.Driver.OpsVerify
+import AnonModel.Model.Ident
 /-! Dispatch of line-protocol operations to model functions. -/
 open Lean
 namespace AnonModel.Driver
@@ -35,6 +39,15 @@ def step (j : Json) : Json :=
     | some r => r
     | none =>
     match stepIdent op j with
+    | some r => r
+    | none =>
+    match stepQuery Ident.isLegacyDid Ident.isUri op j with
+    | some r => r
+    | none =>
+    match stepStatusList op j with
+    | some r => r
+    | none =>
+    match stepVerify op j with
     | some r => r
     | none => badOp
 
